@@ -574,6 +574,17 @@ def build(ctx, th):
     g.model('m_qunit_UnitQuaternion_Nx4', V4i, 'O:V4', coq='m_qunit', module=None,
             num_fn=opt(lambda q: UnitQuaternion(np.vstack([np.asarray(q, float), [0.0, 3.0, 0.0, 4.0]])).data[0]),
             sampler=vec0_sampler(4, tq), note='UnitQuaternion(N x 4 array) constructor (row 0 of 2) against the same model')
+    # the same constructor forms with the validity check switched off: `check` governs validation only, normalisation is governed by `norm`
+    # (default True), so the value stored is still q / |q|
+    g.model('m_qunit_UnitQuaternion_nocheck', V4i, 'O:V4', coq='m_qunit', module=None,
+            num_fn=opt(lambda q: UnitQuaternion([float(x) for x in q], check=False).vec), sampler=vec0_sampler(4, tq),
+            note='UnitQuaternion(4-element list, check=False) against the same model')
+    g.model('m_qunit_UnitQuaternion_ndarray_nocheck', V4i, 'O:V4', coq='m_qunit', module=None,
+            num_fn=opt(lambda q: UnitQuaternion(np.asarray(q, float), check=False).vec), sampler=vec0_sampler(4, tq),
+            note='UnitQuaternion(ndarray of 4 numbers, check=False) against the same model')
+    g.model('m_qunit_UnitQuaternion_listofarrays_nocheck', V4i, 'O:V4', coq='m_qunit', module=None,
+            num_fn=opt(lambda q: UnitQuaternion([np.asarray(q, float), np.array([0.0, 3.0, 0.0, 4.0])], check=False).data[0]), sampler=vec0_sampler(4, tq),
+            note='UnitQuaternion(list of two ndarray(4), check=False), element 0, against the same model')
     g.model('m_trnorm33', [('R', 'M33')], 'O:M33', coq='m_trnorm33', module=None, num_fn=base.trnorm, sampler=mat_sampler(3))
     g.model('m_trnorm44', [('A', 'M44')], 'O:M44', coq='m_trnorm44', module=None, num_fn=base.trnorm, sampler=mat_sampler(4))
     g.model('m_trnorm33_SO3_norm', [('R', 'M33')], 'O:M33', coq='m_trnorm33', module=None,
@@ -736,7 +747,14 @@ class Oracle:
         sites = [('unitvec', 3, base.unitvec), ('unitvec_norm', 3, lambda v: base.unitvec_norm(v)[0]),
                  ('qunit', 4, base.unit), ('Quaternion.unit', 4, lambda q: Quaternion(q).unit().vec),
                  ('UnitQuaternion(list)', 4, uq1), ('UnitQuaternion(s,v)', 4, uq2), ('UnitQuaternion(ndarray4)', 4, uq3),
-                 ('UnitQuaternion(Nx4)', 4, uq4)]
+                 ('UnitQuaternion(Nx4)', 4, uq4),
+                 ('UnitQuaternion(list,check=False)', 4, lambda q: UnitQuaternion([float(x) for x in q], check=False).vec),
+                 ('UnitQuaternion(tuple,check=False)', 4, lambda q: UnitQuaternion(tuple(float(x) for x in q), check=False).vec),
+                 ('UnitQuaternion(ndarray4,check=False)', 4, lambda q: UnitQuaternion(np.asarray(q, float), check=False).vec),
+                 ('UnitQuaternion(ndarray1x4,check=False)', 4, lambda q: UnitQuaternion(np.asarray(q, float).reshape(1, 4), check=False).vec),
+                 ('UnitQuaternion(list-of-ndarray4,check=False)', 4,
+                  lambda q: np.asarray(UnitQuaternion([np.asarray(q, float), np.asarray(q, float)[::-1].copy()], check=False).data[1], float)[::-1]),
+                 ('UnitQuaternion(s,v,check=False)', 4, lambda q: UnitQuaternion(float(q[0]), q[1:], check=False).vec)]
         norms = [1e-6, 1e6, 1.0, 1 + 1e-15, 1 - 1e-15, 1 + 1e-2, 1 - 1e-2]
         for i in range(N):
             for site, n, f in sites:
